@@ -3,5 +3,5 @@ CONSTANTS
   Dev <- tr_Dev
   Vals <- tr_Vals
   Names <- tr_Names
-  MaxPos = 3
+  MaxPos = 0
 CHECK_DEADLOCK FALSE
